@@ -99,6 +99,21 @@ class Model:
             else:
                 b = bytes.fromhex(d['$bytearray'])
             self.lf_by_h[op['lf']].nf.append((op['nf'], b))
+        elif k == 'sul':
+            kw = op['kw']
+            self.setid = kw.get('set_identifier', self.setid)
+            self.sul_seq = kw.get('sequence_number', self.sul_seq)
+            self.vrl = kw.get('max_record_length', self.vrl)
+        elif k == 'setname':
+            o = self.objs[op['h']]
+            old = (o.kind, o.set_name)
+            lst = o.lf.sets[old]
+            new = OrderedDict()
+            for key, val in o.lf.sets.items():
+                new[(o.kind, op['value']) if key == old else key] = val
+            o.lf.sets = new
+            for x in lst:
+                x.set_name = op['value']
         elif k == 'dsname':
             self.objs[op['h']].dataset_name = op['value']
         elif k == 'cast':
